@@ -403,5 +403,228 @@ theorem exec_atomic_of_independent [DecidableEq σ] (B : Backend σ κ γ ρ) (I
 
 end
 
+/-! ## one executor shared by several clients (`SimulationHarness`, `RedisServer`) -/
+
+section
+variable {σ κ γ ρ ν : Type} [DecidableEq κ] [DecidableEq ν]
+
+/-- the shared machine is the single-client machine on the merged input sequence: the client id
+    is ignored -/
+theorem xsharedRun_is_xrun (X : XBackend σ κ γ ρ ν) (okR : ρ) (evs : List (Nat × XInput κ γ)) :
+    ∀ (t : ExTxn κ γ ν) (s : σ),
+      (xsharedRun X okR t s evs).1 = (xrun X okR t s (evs.map (·.2))).1 ∧
+      (xsharedRun X okR t s evs).2.1 = (xrun X okR t s (evs.map (·.2))).2.1 ∧
+      (xsharedRun X okR t s evs).2.2.map (·.2) = (xrun X okR t s (evs.map (·.2))).2.2 := by
+  induction evs with
+  | nil => intro t s; exact ⟨rfl, rfl, rfl⟩
+  | cons e rest ih =>
+    intro t s
+    obtain ⟨a, b, c⟩ := ih (xstep X okR t s e.2).1 (xstep X okR t s e.2).2.1
+    simp only [xsharedRun, List.map_cons, xrun]
+    exact ⟨a, b, by rw [c]⟩
+
+/-- the replies that went to client `a` -/
+def repliesOf (a : Nat) (rs : List (Nat × XReply ρ)) : List (XReply ρ) :=
+  (rs.filter (fun r => r.1 == a)).map (·.2)
+
+/-- number of results of an EXEC reply -/
+def resultCount : XReply ρ → Option Nat
+  | .results rs => some rs.length
+  | _ => none
+
+end
+
+/-- the transaction of client `a` on a shared executor: `MULTI`, then `body` (data commands of any
+    clients), then `EXEC` by `a`.  C05 for client `a`: EXEC returns exactly one result per command
+    that `a` sent, and what the OTHER clients sent in between was executed at once (answered with
+    its result, not with QUEUED). -/
+def C05_x_shared_own_queue : Prop :=
+  ∀ (s : KV.Store) (a : Nat) (body : List (Nat × KV.Cmd)),
+    let r := xsharedRun KV.xbackend (.simple .ok) ExTxn.idle s
+      ((a, .multi) :: body.map (fun e => (e.1, XInput.cmd e.2)) ++ [(a, .exec)])
+    r.2.2.getLast?.map (fun x => (x.1, resultCount x.2)) =
+      some (a, some (body.filter (fun e => e.1 == a)).length) ∧
+    ∀ b, b ≠ a → ∀ x ∈ repliesOf b r.2.2, x ≠ .queued
+
+/-- REFUTED for the code as it is: client 1 opens a transaction, client 2's `SET k v` is answered
+    QUEUED, has no effect until client 1's EXEC, and client 1's EXEC returns a result for a command
+    it never sent -/
+theorem x_shared_captures_foreign_command_counterexample : ¬ C05_x_shared_own_queue := by
+  intro h
+  have := (h [] 1 [(2, .set 1 [118])]).1
+  revert this
+  decide
+
+/-- the same run spelled out: replies `(1,+OK) (2,QUEUED) (1,[+OK])`, and the key only exists
+    after client 1's EXEC -/
+example :
+    xsharedRun KV.xbackend (.simple .ok) ExTxn.idle []
+        [(1, .multi), (2, .cmd (.set 1 [118])), (2, .cmd (.get 1)), (1, .exec)] =
+      (ExTxn.idle, [(1, .str [118])],
+       [(1, .ok), (2, .queued), (2, .queued), (1, .results [.simple .ok, .bulk (some [118])])]) := by
+  decide
+
+section
+variable {σ κ γ ρ ν : Type} [DecidableEq κ] [DecidableEq ν]
+
+theorem xrun_queue_cmds (X : XBackend σ κ γ ρ ν) (okR : ρ) (cs : List γ) :
+    ∀ (t : ExTxn κ γ ν) (s : σ), t.inTxn = true →
+      xrun X okR t s (cs.map XInput.cmd) =
+        ({ t with queue := t.queue ++ cs.map XQ.cmd }, s, List.replicate cs.length .queued) := by
+  induction cs with
+  | nil => intro t s _; simp [xrun]
+  | cons c rest ih =>
+    intro t s hin
+    simp only [List.map_cons, xrun, xstep, xstepWith, hin, if_true]
+    rw [ih _ _ rfl]
+    simp [List.replicate_succ]
+
+theorem xrun_append (X : XBackend σ κ γ ρ ν) (okR : ρ) (a b : List (XInput κ γ)) :
+    ∀ (t : ExTxn κ γ ν) (s : σ),
+      xrun X okR t s (a ++ b) =
+        ((xrun X okR (xrun X okR t s a).1 (xrun X okR t s a).2.1 b).1,
+         (xrun X okR (xrun X okR t s a).1 (xrun X okR t s a).2.1 b).2.1,
+         (xrun X okR t s a).2.2 ++ (xrun X okR (xrun X okR t s a).1 (xrun X okR t s a).2.1 b).2.2) := by
+  induction a with
+  | nil => intro t s; rfl
+  | cons e rest ih => intro t s; simp [xrun, ih]
+
+/-- **partial**: when only ONE client speaks between its MULTI and its EXEC (the hypothesis is on
+    the trace: every event of the window carries the same client id), the shared executor gives
+    that client a transaction: all QUEUED, one result per command, store untouched until EXEC -/
+theorem x_shared_single_speaker_partial (X : XBackend σ κ γ ρ ν) (okR : ρ) (s : σ) (a : Nat)
+    (t : ExTxn κ γ ν) (ht : t.inTxn = false) (hw : t.watched = []) (cs : List γ) :
+    let r := xsharedRun X okR t s ((a, .multi) :: cs.map (fun c => (a, XInput.cmd c)) ++ [(a, .exec)])
+    r.1 = ExTxn.idle ∧ r.2.1 = (xrunQueue X okR s (cs.map XQ.cmd)).1 ∧
+    r.2.2.map (·.2) =
+      .ok :: (List.replicate cs.length .queued ++ [.results (xrunQueue X okR s (cs.map XQ.cmd)).2]) ∧
+    (xrunQueue X okR s (cs.map XQ.cmd)).2.length = cs.length := by
+  intro r
+  obtain ⟨e1, e2, e3⟩ := xsharedRun_is_xrun X okR
+    ((a, .multi) :: cs.map (fun c => (a, XInput.cmd c)) ++ [(a, .exec)]) t s
+  have hmap : (((a, XInput.multi) :: cs.map (fun c => (a, XInput.cmd c)) ++ [(a, XInput.exec)] :
+        List (Nat × XInput κ γ)).map (fun x => x.2)) =
+      (XInput.multi :: cs.map XInput.cmd) ++ [XInput.exec] := by
+    simp [List.map_map, Function.comp_def]
+  rw [hmap] at e1 e2 e3
+  have hm : xstep X okR t s .multi = ({ t with inTxn := true, queue := [] }, s, .ok) := by
+    simp [xstep, xstepWith, ht]
+  have hx : xrun X okR t s (XInput.multi :: cs.map XInput.cmd ++ [XInput.exec]) =
+      (ExTxn.idle, (xrunQueue X okR s (cs.map XQ.cmd)).1,
+       .ok :: (List.replicate cs.length .queued ++ [.results (xrunQueue X okR s (cs.map XQ.cmd)).2])) := by
+    rw [List.cons_append]
+    simp only [xrun]
+    rw [hm, xrun_append, xrun_queue_cmds X okR cs _ s rfl]
+    simp only [xrun, List.nil_append]
+    rw [xstep_exec X okR _ s rfl]
+    simp [hw]
+  rw [hx] at e1 e2 e3
+  exact ⟨e1, e2, e3, by rw [xrunQueue_length]; simp⟩
+
+end
+
+/-- non-vacuity: a single-speaker window on the concrete store -/
+example :
+    xsharedRun KV.xbackend (.simple .ok) ExTxn.idle [(1, .str [48])]
+        ((7, .multi) :: [KV.Cmd.incr 1, .get 1].map (fun c => (7, XInput.cmd c)) ++ [(7, .exec)]) =
+      (ExTxn.idle, [(1, .str [49])],
+       [(7, .ok), (7, .queued), (7, .queued), (7, .results [.int 1, .bulk (some [49])])]) := by
+  decide
+
+/-! ## the replicated front end (`ReplicatedShardedState::execute`, `server_persistent`) -/
+
+section
+variable {σ κ γ ρ : Type}
+
+/-- the decision table of the replicated front end: it has no transaction state at all -/
+theorem r_table (exec : σ → γ → σ × ρ) (s : σ) :
+    rstep (κ := κ) exec s .multi = (s, .errUnknown) ∧
+    rstep (κ := κ) exec s .exec = (s, .errUnknown) ∧
+    rstep (κ := κ) exec s .discard = (s, .errUnknown) ∧
+    rstep (κ := κ) exec s .unwatch = (s, .errUnknown) ∧
+    (∀ ks : List κ, rstep exec s (.watch ks) = (s, .ok)) ∧
+    ∀ c, rstep (κ := κ) exec s (.cmd c) = ((exec s c).1, .plain (exec s c).2) :=
+  ⟨rfl, rfl, rfl, rfl, fun _ => rfl, fun _ => rfl⟩
+
+/-- the data commands of an input sequence -/
+def dataCmds : List (XInput κ γ) → List γ
+  | [] => []
+  | .cmd c :: rest => c :: dataCmds rest
+  | _ :: rest => dataCmds rest
+
+/-- **nothing is ever queued there**: whatever MULTI / EXEC / DISCARD / WATCH / UNWATCH are mixed
+    in, the store after a trace is the consecutive run of its data commands — each takes effect
+    at once -/
+theorem r_never_queues (exec : σ → γ → σ × ρ) (is : List (XInput κ γ)) :
+    ∀ s, (rrun exec s is).1 = (is.foldl (fun s i => (rstep exec s i).1) s) ∧
+      (rrun exec s is).1 = (dataCmds is).foldl (fun s c => (exec s c).1) s := by
+  induction is with
+  | nil => intro s; exact ⟨rfl, rfl⟩
+  | cons i rest ih =>
+    intro s
+    obtain ⟨a, b⟩ := ih (rstep exec s i).1
+    refine ⟨by simp only [rrun, List.foldl_cons]; exact a, ?_⟩
+    simp only [rrun]
+    rw [b]
+    cases i <;> rfl
+
+end
+
+/-- C05's first clause on the replicated front end: between MULTI and EXEC nothing reaches the
+    store -/
+def C05_r_queued_has_no_effect : Prop :=
+  ∀ (s : KV.Store) (cs : List KV.Cmd),
+    (rrun (κ := Nat) KV.exec s (.multi :: cs.map XInput.cmd)).1 = s
+
+/-- REFUTED: `MULTI` is answered `-ERR unknown command` and `SET k v` is applied at once -/
+theorem r_queued_has_effect_counterexample : ¬ C05_r_queued_has_no_effect := by
+  intro h
+  have := h [] [.set 1 [118]]
+  revert this
+  decide
+
+example :
+    rrun (κ := Nat) KV.exec [] [.watch [1], .multi, .cmd (.set 1 [118]), .cmd (.get 1), .exec] =
+      ([(1, .str [118])],
+       [.ok, .errUnknown, .plain (.simple .ok), .plain (.bulk (some [118])), .errUnknown]) := by
+  decide
+
+/-! ## fan-out commands inside EXEC (concrete store) -/
+
+/-- MSET / MGET / multi-key DEL queued and replayed by EXEC: one result each, equal to the
+    consecutive run — `exec_equals_sequential_partial` instantiated on bodies with fan-out
+    commands, a duplicate key in DEL, a non-string key in MGET -/
+theorem kv_mset_mget_del_in_exec :
+    run KV.backend ConnTxn.idle [(3, .list [[7]])]
+      [(.multi, []), (.cmd (.mset [(1, [49]), (2, [50])]), []), (.cmd (.mget [1, 3, 2, 9]), []),
+       (.cmd (.delm [1, 1, 3]), []), (.cmd (.mget [1, 2]), []), (.exec, [])] =
+    (ConnTxn.idle, [(2, .str [50])],
+     [.ok, .queued, .queued, .queued, .queued,
+      .results [.simple .ok, .marr [some [49], none, some [50], none], .int 2,
+                .marr [none, some [50]]]]) := by
+  decide
+
+/-! ## non-vacuity of the theorems above -/
+
+/-- `step_table`: one reachable state per row class, spelled out on the concrete store -/
+example :
+    let t : ConnTxn Nat KV.Cmd KV.Rep :=
+      { inTxn := true, queue := [.set 1 [49], .get 1], errors := false, watched := [(2, .bulk none)] }
+    rcls (step KV.backend [] t [] .exec).2.2 = .results 2 ∧
+    rcls (step KV.backend [] t [(2, .str [1])] .exec).2.2 = .nil ∧
+    rcls (step KV.backend [] { t with errors := true } [] .exec).2.2 = .err .execAbort ∧
+    rcls (step KV.backend [] t [] .protoErr).2.2 = .err .protocol ∧
+    (step KV.backend [] t [] .protoErr).1 = t := by decide
+
+/-- `exec_equals_pipeline` under a NON-empty schedule: the foreign `SET k 2` between the two
+    queued commands shows in EXEC exactly as it shows in the plain pipeline -/
+example :
+    let t : ConnTxn Nat KV.Cmd KV.Rep :=
+      { inTxn := true, queue := [.set 1 [49], .get 1], errors := false, watched := [] }
+    let sc : List (List KV.Cmd) := [[], [.set 1 [50]]]
+    step KV.backend sc t [] .exec = (ConnTxn.idle, [(1, .str [50])], .results [.simple .ok, .bulk (some [50])]) ∧
+    plainPipeline KV.backend sc ConnTxn.idle [] t.queue =
+      ([], [(1, .str [50])], [.plain (.simple .ok), .plain (.bulk (some [50]))]) := by decide
+
 end C05
 end RedisVerif
